@@ -153,6 +153,11 @@ class SymInterp:
                 fi = self.src.funcs.get((rel, st.name))
                 if fi is not None:
                     sc[st.name] = (lambda fi: (lambda *a, **k: self.call_function(fi, list(a), k)))(fi)
+            elif isinstance(st, ast.ImportFrom) and st.module in _PURE_MODULES and st.level == 0:
+                # names imported from a pure standard-library module are themselves (defaultdict, OrderedDict, product, reduce, ...)
+                for al in st.names:
+                    if hasattr(_PURE_MODULES[st.module], al.name):
+                        sc.setdefault(al.asname or al.name, getattr(_PURE_MODULES[st.module], al.name))
         return sc
 
     def new_env(self, fi, /, **names):
